@@ -692,7 +692,18 @@ def num_to_string(ex, kind, v):
         cap = getattr(ex.uni, 'numstr_cap', 3)
         s = S.fresh('str(%s)' % kind, cap, ex.uni.axioms, ascii_only=True, min_len=1)
         ex.uni.memo[key] = s
-        ex.uni.memo.setdefault(('num_str_all', kind), []).append((t, s))
+        # injective rendering: equal text <=> equal number (also across i64/u64)
+        allk = ex.uni.memo.setdefault(('num_str_all',), [])
+        for (k2, t2, s2) in allk:
+            same = None
+            if k2 == kind:
+                same = (t == t2) if kind != 'f64' else None
+            elif {k2, kind} == {'i64', 'u64'}:
+                ti, tu = (t, t2) if kind == 'i64' else (t2, t)
+                same = z3.And(ti >= 0, ti == tu)
+            if same is not None:
+                ex.add_axiom(same == z3bool(S.s_eq(s, s2)))
+        allk.append((kind, t, s))
     return StrV(s)
 
 
@@ -786,14 +797,22 @@ def m_parse_int(ex, callee, args):
 
 
 def sym_parse_int(ex, s, ty):
+    ent = parse_int_terms(ex.uni, s, ty)
+    if ex.branch(ent[0]):
+        return ok(BV(ent[1], ty))
+    return err(Opaque('ParseIntError'))
+
+
+def parse_int_terms(uni, s, ty):
     """exact model of <int>::from_str on a bounded symbolic byte string
-    (cap <= 18 so that no overflow is possible for 64-bit targets)"""
+    (cap <= 18 so that no overflow is possible for 64-bit targets):
+    -> (valid: Bool, value: BV64)"""
     bits, signed = INT_TYPES[ty]
     bs, ln, cap = S.parts(s)
     if cap > 18 or bits != 64:
         raise Unsupported('symbolic parse::<%s> with cap %d' % (ty, cap))
     key = ('parse_int', ty, id(s))
-    ent = ex.uni.memo.get(key)
+    ent = uni.memo.get(key)
     if ent is None:
         def isdig(b):
             return z3.And(z3.UGE(b, 0x30), z3.ULE(b, 0x39))
@@ -824,8 +843,6 @@ def sym_parse_int(ex, s, ty):
                 c = z3.And(*conds)
                 valid = b_or(valid, c)
                 value = z3.If(c, val, value)
-        ent = (valid, value)
-        ex.uni.memo[key] = ent
-    if ex.branch(ent[0]):
-        return ok(BV(ent[1], ty))
-    return err(Opaque('ParseIntError'))
+        ent = (z3bool(valid), value)
+        uni.memo[key] = ent
+    return ent
